@@ -1,12 +1,12 @@
 SPECIFICATION Spec
 CONSTANTS
-  GroupSize = 6
-  ActiveThreshold = 4
-  GroupThreshold = 3
-  ClientQuorum = 5
+  GroupSize = 5
+  ActiveThreshold = 3
+  GroupThreshold = 2
+  ClientQuorum = 4
   MemberLists <- ListsSmall
   Envs <- OneEnv
   AdvKinds <- AllAdv
-  MaxAdversarial = 2
+  MaxAdversarial = 1
   StrictVerify = TRUE
 INVARIANTS TypeOK StaticRulesHold MembersHashMatches SignaturesRecover GroupMembersMatch ValidWheneverSubmitted GateImpliesThresholds NoSubmissionBelowQuorum OwnSignatureIncluded WalletMatches HonestAccepted
